@@ -188,18 +188,22 @@ PROPS["C19"] = {
 }
 
 PROPS["C18"] = {
-    "files": ["store/store.go"],
+    "files": ["store/store.go", "state/store.go"],
     "groups": [
         {"dir": "store",
          "quick": ["VP_C18_Save_n3", "VP_C18_Save_n3_crash", "VP_C18_Prune_n4", "VP_C18_Prune_n4_crash", "VP_C18_Prune_n4_parts"],
          "thorough": ["VP_C18_Prune_n6_crash", "VP_C18_PruneBatchBoundary"]},
+        {"dir": "state",
+         "quick": ["VP_C18_StatePrune_low", "VP_C18_StatePrune_low_crash", "VP_C18_StatePrune_checkpoint"],
+         "thorough": ["VP_C18_StatePrune_checkpoint_crash"]},
     ],
     "bounds": {
         "block store": "real BlockStore on the real MemDB behind a crash-injecting wrapper; chains of 3..4 (thorough 6) blocks with 2 transactions, single-part or multi-part (part size 64), really marshalled; SaveBlock of every block, then PruneBlocks to a symbolic retain height in [1, n]; one simulated crash before any single write / batch write; reopen (NewBlockStore on what is on disk) and audit of [base, height]: meta, block (hash equals id), every part, hash index, commit (seen commit at the tip)",
+        "state store": "real state store (validator-set and consensus-parameter records as State.Save writes them) over 5 heights starting at 3 or at 99998 (across the validator-set checkpoint at 100000); the validator set and the parameters each change at one arbitrary height or never; up to two PruneStates with arbitrary retain heights, a crash before any write of the first (then audit and re-run); afterwards every height from the retain height up loads the set / parameters in force, pruned heights are gone",
         "batch boundary (thorough)": "1003 blocks, PruneBlocks(1002) with a crash at each of its writes (the 1000-height intermediate flush)",
     },
     "stubs": ["database = real tm-db MemDB; batch writes atomic (goleveldb contract), single writes atomic"],
-    "outside": ["state store (validators / params per height): see C08 history harness; PruneStates", "two crashes in one scenario", "commit signature verification of stored commits (C07)"],
+    "outside": ["ABCI responses pruning; more than one change of the set in the window", "two crashes in one scenario", "commit signature verification of stored commits (C07)"],
     "timeout_quick": 300, "timeout_thorough": 3000,
 }
 
@@ -297,13 +301,13 @@ PROPS["C17"] = {
          "quick": ["VP_C17_Deliver_2x9", "VP_C17_HostilePackets_2"],
          "thorough": ["VP_C17_Deliver_3x9", "VP_C17_Deliver_4x5", "VP_C17_HostilePackets_3"]},
         {"dir": "consensus",
-         "quick": ["VP_C17_CoreSurvivesVote"],
+         "quick": ["VP_C17_CoreSurvivesVote", "VP_C17_CoreSurvivesProposal", "VP_C17_CoreSurvivesBlockPart"],
          "thorough": []},
     ],
     "bounds": {
         "delivery (H1)": "real MConnection pair over an in-memory link, packet payload size 4: the real send side (Channel queues, sendPacketMsg channel selection by priority/recently-sent ratio, nextPacketMsg, protoio framing, flush) called step by step, the real receive routine running as a goroutine under the engine scheduler; 2 channels of different priority; 2 (thorough 3-4) messages of arbitrary bytes, each of any length 0..9 (thorough 4 messages: 0..5) on either channel, with 0-2 packets sent between two sends",
         "hostile packets (H1b)": "2 (thorough 3) packets written to the real receive routine: PacketMsg with arbitrary int32 channel id, arbitrary EOF flag, arbitrary data of length {0,4,7} against a message capacity of 6; ping; pong; empty Packet",
-        "consensus core (H3)": "one signed vote message of arbitrary height 0..3, round 0..2, type, validator through ValidateBasic and the real handleMsg at the initial height",
+        "consensus core (H3)": "through ValidateBasic and the real handleMsg of a real consensus.State at the initial height: one signed vote message of arbitrary height 0..3, round 0..2, type, validator; one proposal signed by the round's proposer with height H-1..H+1, round 0..2, POL round -1..3, part-set total in {1, max, max+1, 65536}; two block-part messages for an accepted 2-part proposal, each a part of the proposed or of another block with index / proof index / proof total / bytes tampered, any round, height H or H+1",
     },
     "stubs": ["in-memory net.Conn", "nop logger", "timers on the engine's virtual clock (fire only when every goroutine is blocked)"],
     "outside": ["reactor Receive methods for hostile well-formed messages (H2) other than the consensus vote path: not built", "switch/peer lifecycle", "flow-rate limiting delays", "messages longer than 9 bytes / payload sizes other than 4"],
@@ -314,7 +318,7 @@ PROPS["C05"] = {
     "files": ["consensus/replay.go", "consensus/state.go", "state/execution.go", "mempool/v0/clist_mempool.go", "store/store.go", "state/store.go"],
     "groups": [
         {"dir": "state",
-         "quick": ["VP_C05_Quiesce_0", "VP_C05_Quiesce_1", "VP_C05_Quiesce_2", "VP_C05_Quiesce_1_concurrent"],
+         "quick": ["VP_C05_Quiesce_0", "VP_C05_Quiesce_1", "VP_C05_Quiesce_2", "VP_C05_Quiesce_1_concurrent", "VP_C05_Quiesce_v1_concurrent"],
          "thorough": ["VP_C05_Quiesce_2_concurrent"]},
         {"dir": "consensus",
          "quick": ["VP_C05_Pipeline_n3", "VP_C05_Pipeline_n2_crash1", "VP_C05_Pipeline_n3_crash1"],
@@ -322,10 +326,10 @@ PROPS["C05"] = {
     ],
     "bounds": {
         "commit pipeline and recovery (H1/H2)": "1-validator chain of 2-3 blocks (0-2 transactions each; in the n3 crash entries the application changes the validator's power and the block size limit at height 1) committed by the real State.finalizeCommit (real block store, state store, BlockExecutor, local ABCI client) on a recording application that keeps height and hash across crashes; 1 (thorough 2) crashes at any database write (single write or atomic batch) or application call, also during recovery; every restart runs the real state load + Handshaker.Handshake + NewState",
-        "mempool quiescence (H3)": "real BlockExecutor.Commit with the real v0 mempool on an asynchronous mempool connection (answers arrive only when flushed or delivered): 0-2 transactions of arbitrary bytes submitted before the commit, each answered or still in flight; the block contains the first one or not; one further CheckTx running concurrently with up to 3 preemptions at synchronisation points",
+        "mempool quiescence (H3)": "real BlockExecutor.Commit with the real v0 mempool on an asynchronous mempool connection (answers arrive only when flushed or delivered): 0-2 transactions of arbitrary bytes submitted before the commit, each answered or still in flight; the block contains the first one or not; one further CheckTx running concurrently with up to 3 preemptions at synchronisation points; the same race against the v1 (priority) mempool with an empty block",
     },
     "stubs": ["pubsub publishing stubbed", "nil WAL (the #ENDHEIGHT marker and WAL catch-up are C15's subject)", "crash = abandon execution at the crash point, keep database contents and the application's committed height/hash"],
-    "outside": ["WAL catch-up replay after the handshake", "applications that are ahead of the block store by more than the in-flight block", "mempool v1", "socket/grpc ABCI clients (modelled by the queued connection)", "chains longer than 3 blocks, more than 2 crashes"],
+    "outside": ["WAL catch-up replay after the handshake", "applications that are ahead of the block store by more than the in-flight block", "socket/grpc ABCI clients (modelled by the queued connection)", "chains longer than 3 blocks, more than 2 crashes"],
     "timeout_quick": 400, "timeout_thorough": 1800,
 }
 
